@@ -20,6 +20,9 @@ import TrompModel.Tie.SemKill
 import TrompModel.Props.C14_SeqRing
 import TrompModel.Props.C14_SeqHeapRefines
 import TrompModel.Tie.IsCompleted
+import TrompModel.Tie.HandleRetire
+import TrompModel.Tie.HandleDetach
+import TrompModel.Props.C14_HandleWorld
 
 namespace Tromp.Tie
 open Tromp Tromp.Ring World Tromp.C14Ring
@@ -219,5 +222,26 @@ theorem is_completed_on_heap (n : Nat) (ops : List Tromp.Op) (hb : ∀ op ∈ op
   simp only [List.length_map] at hwalk
   rw [hwalk, is_completed_eq, List.all_map]
   rfl
+
+/-! ### the handle operations of the machine (Props/C14_HandleMachine.lean), read off the translations -/
+
+/-- what one statement of `sequence_matcher::retire` / `detach` does to the rings (handle of owner `o` in sequence `s`, of `n`). -/
+def handleOpsOfAct (n : Nat) (o : Owner) (s : Nat) (a : Act) : List (Ring.Op SAddr) :=
+  if a = Act.stmt "this->unlink()" then [Ring.Op.unlink (SAddr.handle o s)]
+  else if a = Act.stmt "seq->add_retired(this)" then [Ring.Op.pushBack (retiredObj n s) (SAddr.handle o s)]
+  else []
+
+/-- **`sequence_matcher::retire` is the machine's `retire`**: `unlink()`, then `push_back` on the sequence's retired ring exactly
+    if the handle is still attached (`if (seq)`). -/
+theorem handle_retire_script (n : Nat) (st : HState) (o : Owner) (s : Nat) :
+    (Cxx.handle_retire (st.ptr o s)).flatMap (handleOpsOfAct n o s) = hScript n st (.retire o s) := by
+  rw [handle_retire_order]
+  cases h : st.ptr o s <;> simp [hScript, h] <;> rfl
+
+/-- **`sequence_matcher::detach` is the machine's `detach`** on the rings (its second statement, `seq = nullptr`, is the
+    machine's clearing of the attached flag). -/
+theorem handle_detach_script (n : Nat) (st : HState) (o : Owner) (s : Nat) :
+    Cxx.handle_detach.flatMap (handleOpsOfAct n o s) = hScript n st (.detach o s) := by
+  rw [handle_detach_order]; rfl
 
 end Tromp.Tie
